@@ -132,6 +132,7 @@ def run(prop, tier, seed, replay=None):
     samples = []
     evaluations = 0
     nontrivial = set()
+    extra_coverage = {}   # additional coverage keys recorded by extra_checks (e.g. "exhaustive")
 
     def three_sides(lines):
         res = {}
@@ -223,9 +224,18 @@ def run(prop, tier, seed, replay=None):
                     if len(violations) < 20:
                         violations.append(fdict)
             # property-specific extra checks
-            ctx = {"three_sides": three_sides, "impls": impls, "driver": driver, "rng": rng, "tier": tier}
+            # ctx["coverage"] lets a check that runs outside the case-file protocol account for
+            # what it executed (same meaning as the counters above); ctx["tie_diffs"] takes
+            # implementation-vs-model differences (same dict shape as above)
+            ctx = {"three_sides": three_sides, "impls": impls, "driver": driver, "rng": rng, "tier": tier, "tie_diffs": tie_diffs,
+                   "coverage": {"evaluations": 0, "nontrivial": set(), "samples": [], "streams": {}, "extra": {}}}
             for f in prop.extra_checks(ctx):
                 violations.append(f)
+            evaluations += ctx["coverage"]["evaluations"]
+            nontrivial |= set(ctx["coverage"]["nontrivial"])
+            samples.extend(ctx["coverage"]["samples"])
+            stats.update(ctx["coverage"]["streams"])
+            extra_coverage.update(ctx["coverage"]["extra"])
             # known findings: run their witnesses separately
             for kf in known:
                 if "case" not in kf:
@@ -238,7 +248,7 @@ def run(prop, tier, seed, replay=None):
             broken.append({"kind": "run", "what": "a correspondence run failed", "log": str(e)[-2500:]})
 
     if tie_diffs:
-        broken.append({"kind": "correspondence", "what": "implementation and model differ on %d explored case(s)" % sum(s["tie_diffs"] for s in stats.values()),
+        broken.append({"kind": "correspondence", "what": "implementation and model differ on %d explored case(s)" % sum(s.get("tie_diffs", 0) for s in stats.values()),
                        "first": tie_diffs[0]})
 
     wall = time.time() - t0
@@ -296,6 +306,7 @@ def run(prop, tier, seed, replay=None):
         "impl_builds": [l for l, _ in impls],
         "known_findings_reproduced": len(known_lines),
     }
+    coverage.update({k: v for k, v in extra_coverage.items() if k not in coverage})
     core.write_evidence(pid, tier, seed, coverage, list(prop.assumptions), wall, 1 if status else 0, level=prop.level)
 
     for l in known_lines:
